@@ -99,12 +99,16 @@ type Task struct {
 	resp  response
 	notes []note
 
-	wakeAt     time.Duration
-	zeroReads  int
-	crashVal   string
-	crashStack string
-	syncVar    byte
-	waitSince  int
+	// lockArrived: the task has executed its Lock call and found the mutex taken; only from then on is it a
+	// pending writer (which blocks new readers). Before that it is merely about to call Lock - a plain
+	// scheduling point, like a goroutine preempted just before the call.
+	lockArrived bool
+	wakeAt      time.Duration
+	zeroReads   int
+	crashVal    string
+	crashStack  string
+	syncVar     byte
+	waitSince   int
 }
 
 //go:norace
@@ -315,8 +319,7 @@ func (s *Sim) enterWait(t *Task) {
 	t.waitSince = s.steps
 	switch t.req.kind {
 	case opLock:
-		ls := s.lockOf(t.req.obj, t.req.keep)
-		ls.pendingW++
+		t.lockArrived = false
 	case opSleep:
 		t.wakeAt = s.now + t.req.dur
 	case opRead:
@@ -371,6 +374,9 @@ func (s *Sim) grantable(t *Task) bool {
 	r := &t.req
 	switch r.kind {
 	case opLock:
+		if !t.lockArrived {
+			return true // about to call Lock: a scheduling point; the call itself happens when scheduled
+		}
 		ls := s.lockOf(r.obj, r.keep)
 		return !ls.writer && ls.readers == 0
 	case opRLock:
@@ -425,7 +431,9 @@ func (s *Sim) grant(t *Task) string {
 	switch r.kind {
 	case opLock:
 		ls := s.lockOf(r.obj, r.keep)
-		ls.pendingW--
+		if t.lockArrived {
+			ls.pendingW--
+		}
 		ls.writer = true
 		ls.owner = t
 	case opRLock:
